@@ -8,6 +8,7 @@ import (
 	"strings"
 	"sync"
 
+	"github.com/oasisprotocol/oasis-core/go/common/crypto/hash"
 	"github.com/oasisprotocol/oasis-core/go/storage/mkvs/checkpoint"
 	"github.com/oasisprotocol/oasis-core/go/storage/mkvs/node"
 	"github.com/oasisprotocol/oasis-core/go/verifshim/sched"
@@ -28,6 +29,10 @@ import (
 type c12call struct {
 	Chunk   int  `json:"chunk"`
 	Corrupt bool `json:"corrupt,omitempty"` // send a corrupted copy (must be rejected, restore continues)
+	// BadProof: send a chunk whose digest matches the manifest (which the
+	// adversarial provider also supplied) but whose proof does not verify: the
+	// restorer must abort the whole restore.
+	BadProof bool `json:"bad_proof,omitempty"`
 }
 
 type c12concCfg struct {
@@ -70,6 +75,7 @@ func c12concScenarios(r *ev.Run, dir string) []conc.Scenario {
 	}
 	g := func(i int) c12call { return c12call{Chunk: i} }
 	bad := func(i int) c12call { return c12call{Chunk: i, Corrupt: true} }
+	forged := func(i int) c12call { return c12call{Chunk: i, BadProof: true} }
 	plans := []plan{
 		{"2chunks/t0[0] t1[1]", 2, [][]c12call{{g(0)}, {g(1)}}, bound},
 		{"3chunks/t0[0,1] t1[2]", 3, [][]c12call{{g(0), g(1)}, {g(2)}}, bound},
@@ -77,6 +83,9 @@ func c12concScenarios(r *ev.Run, dir string) []conc.Scenario {
 		{"3chunks/t0[0] t1[1] t2[2]", 3, [][]c12call{{g(0)}, {g(1)}, {g(2)}}, bound},
 		{"2chunks/retry t0[bad0,0] t1[1]", 2, [][]c12call{{bad(0), g(0)}, {g(1)}}, bound},
 		{"3chunks/retry t0[0] t1[bad1,1,2]", 3, [][]c12call{{g(0)}, {bad(1), g(1), g(2)}}, bound},
+		// a chunk with a matching digest but a failing proof aborts the restore while another chunk is in flight
+		{"2chunks/forged t0[forged0] t1[1]", 2, [][]c12call{{forged(0)}, {g(1)}}, bound},
+		{"3chunks/forged t0[0,forged2] t1[1]", 3, [][]c12call{{g(0), forged(2)}, {g(1)}}, bound},
 	}
 	if r.Thorough() {
 		plans = append(plans,
@@ -128,11 +137,27 @@ func c12concInstance(tr c12tree, backend string, cp *c12cp, threads [][]c12call)
 	}
 	rs, _ := checkpoint.NewRestorer(ndb)
 	root := cp.meta.Root
+	meta := cp.meta
+	forgedData := map[int][]byte{}
+	hasForged := false
+	for _, calls := range threads {
+		for _, c := range calls {
+			if c.BadProof {
+				fd, fm := c12Forge(cp, meta, c.Chunk)
+				if fd == nil {
+					ndb.Close()
+					return nil, fmt.Errorf("no single-bit change of chunk %d passes the digest check and fails the proof", c.Chunk)
+				}
+				forgedData[c.Chunk], meta = fd, fm
+				hasForged = true
+			}
+		}
+	}
 	if err := ndb.StartMultipartInsert(root.Version); err != nil {
 		ndb.Close()
 		return nil, err
 	}
-	if err := rs.StartRestore(kv.Ctx, cp.meta); err != nil {
+	if err := rs.StartRestore(kv.Ctx, meta); err != nil {
 		ndb.Close()
 		return nil, err
 	}
@@ -148,6 +173,9 @@ func c12concInstance(tr c12tree, backend string, cp *c12cp, threads [][]c12call)
 				if c.Corrupt {
 					data = append([]byte{}, data...)
 					data[len(data)/2] ^= 0x10
+				}
+				if c.BadProof {
+					data = forgedData[c.Chunk]
 				}
 				done, err := rs.RestoreChunk(kv.Ctx, uint64(c.Chunk), bytes.NewReader(data))
 				mu.Lock()
@@ -180,6 +208,32 @@ func c12concInstance(tr c12tree, backend string, cp *c12cp, threads [][]c12call)
 	inst.Final = func(_ *sched.Result) string {
 		if len(during) > 0 {
 			return "during the restore: " + during[0]
+		}
+		if hasForged {
+			// The forged chunk must be refused with a proof failure and the restore aborted: nobody
+			// may be told that the restore is complete, and nothing may become visible.
+			sawProofFailure := false
+			for _, x := range results {
+				if x.done {
+					return fmt.Sprintf("completion was signalled to thread %d (chunk %d) although the restore was aborted after a chunk failed proof verification", x.thread, x.call.Chunk)
+				}
+				if x.call.BadProof {
+					if !errors.Is(x.err, checkpoint.ErrChunkProofVerificationFailed) {
+						return fmt.Sprintf("forged chunk %d: expected a proof verification failure, got %v", x.call.Chunk, x.err)
+					}
+					sawProofFailure = true
+				}
+			}
+			if !sawProofFailure {
+				return "harness: forged chunk was not sent"
+			}
+			if rs.GetCurrentCheckpoint() != nil {
+				return "restorer still reports a checkpoint in progress after a proof failure"
+			}
+			if w := visibleDuringRestore(ndb, root); w != "" {
+				return "after the aborted restore: " + w
+			}
+			return ""
 		}
 		dones := 0
 		for _, x := range results {
@@ -270,4 +324,29 @@ func c12raceIters(r *ev.Run) int {
 		return 40
 	}
 	return 10
+}
+
+// c12Forge finds a single-bit change of chunk ci that the restorer refuses with a
+// proof verification failure when the manifest carries the changed chunk's digest.
+func c12Forge(cp *c12cp, meta *checkpoint.Metadata, ci int) ([]byte, *checkpoint.Metadata) {
+	for bit := len(cp.chunks[ci])*8 - 1; bit >= 0; bit-- {
+		m := append([]byte{}, cp.chunks[ci]...)
+		m[bit/8] ^= 1 << uint(bit%8)
+		mm := *meta
+		mm.Chunks = append([]hash.Hash{}, meta.Chunks...)
+		mm.Chunks[ci] = hash.NewFromBytes(m)
+		ndb, err := kv.OpenDB("badger", "")
+		if err != nil {
+			return nil, nil
+		}
+		rs, _ := checkpoint.NewRestorer(ndb)
+		_ = ndb.StartMultipartInsert(mm.Root.Version)
+		_ = rs.StartRestore(kv.Ctx, &mm)
+		_, err = rs.RestoreChunk(kv.Ctx, uint64(ci), bytes.NewReader(m))
+		ndb.Close()
+		if errors.Is(err, checkpoint.ErrChunkProofVerificationFailed) {
+			return m, &mm
+		}
+	}
+	return nil, nil
 }
